@@ -28,6 +28,7 @@ from typing import List, Tuple, Any, Dict
 import enum
 from dataclasses import dataclass
 from datetime import datetime, timedelta, date, time, timezone
+import copy
 import json
 
 
@@ -119,7 +120,8 @@ class MaintenanceInfo:
         self._nodes[name] = minfo
 
     def get(self, name: str) -> MaintenanceEntry or None:
-        return self._nodes.get(name)
+        # a finalized object hands out copies of its entries, so it cannot be altered through them
+        return copy.copy(self._nodes.get(name)) if self._lock else self._nodes.get(name)
 
     def rem(self, name: str) -> None:
         """
@@ -150,7 +152,7 @@ class MaintenanceInfo:
         Copy an instance of the object but don't finalize
         """
         t = MaintenanceInfo()
-        t._nodes = self._nodes.copy()
+        t._nodes = {k: copy.copy(v) for k, v in self._nodes.items()}
         return t
 
     def list_names(self) -> List[str]:
@@ -163,7 +165,7 @@ class MaintenanceInfo:
         """
         Return a list of tuples with node name and maintenance state details
         """
-        return list(self._nodes.copy().items())
+        return [(k, copy.copy(v) if self._lock else v) for k, v in self._nodes.items()]
 
     def iter(self):
         """
@@ -173,8 +175,8 @@ class MaintenanceInfo:
         """
         if not self._lock:
             raise MaintenanceModeException("Object should be finalized prior to attempting iteration")
-        for i in self._nodes.items():
-            yield i
+        for k, v in self._nodes.items():
+            yield k, copy.copy(v)
 
     @classmethod
     def from_json(cls, json_string: str):
